@@ -150,6 +150,14 @@ func (f *gateFile) Delete() error {
 	return err
 }
 
+// Namespace passes on the inner file's namespace (in-memory filesystems have equal URIs).
+func (f *gateFile) Namespace() any {
+	if n, ok := f.File.(interface{ Namespace() any }); ok {
+		return n.Namespace()
+	}
+	return nil
+}
+
 func (f *gateFile) CreateDeleteFunc() func() error {
 	inner := f.File.CreateDeleteFunc()
 	uri := f.File.URI()
